@@ -31,6 +31,7 @@ pub fn layer(l: Layer) -> String {
 }
 
 pub fn len_err(e: &LenError) -> String {
+    crate::util::touch(e);
     format!(
         "len(req={},len={},src={},layer={},off={})",
         e.required_len,
@@ -42,6 +43,7 @@ pub fn len_err(e: &LenError) -> String {
 }
 
 fn sll_err(e: &err::linux_sll::HeaderError) -> String {
+    crate::util::touch(e);
     use err::linux_sll::HeaderError::*;
     match e {
         UnsupportedPacketTypeField { packet_type } => format!("LinuxSll(PacketType({}))", packet_type),
@@ -52,6 +54,7 @@ fn sll_err(e: &err::linux_sll::HeaderError) -> String {
 }
 
 fn macsec_err(e: &err::macsec::HeaderError) -> String {
+    crate::util::touch(e);
     use err::macsec::HeaderError::*;
     match e {
         UnexpectedVersion => "Macsec(UnexpectedVersion)".to_string(),
@@ -60,6 +63,7 @@ fn macsec_err(e: &err::macsec::HeaderError) -> String {
 }
 
 fn ip_err(e: &err::ip::HeaderError) -> String {
+    crate::util::touch(e);
     use err::ip::HeaderError::*;
     match e {
         UnsupportedIpVersion { version_number } => format!("Ip(Version({}))", version_number),
@@ -68,6 +72,7 @@ fn ip_err(e: &err::ip::HeaderError) -> String {
 }
 
 fn ipv4_err(e: &err::ipv4::HeaderError) -> String {
+    crate::util::touch(e);
     use err::ipv4::HeaderError::*;
     match e {
         UnexpectedVersion { version_number } => format!("Ipv4(Version({}))", version_number),
@@ -76,6 +81,7 @@ fn ipv4_err(e: &err::ipv4::HeaderError) -> String {
 }
 
 fn ipv6_err(e: &err::ipv6::HeaderError) -> String {
+    crate::util::touch(e);
     use err::ipv6::HeaderError::*;
     match e {
         UnexpectedVersion { version_number } => format!("Ipv6(Version({}))", version_number),
@@ -83,10 +89,12 @@ fn ipv6_err(e: &err::ipv6::HeaderError) -> String {
 }
 
 fn auth_err_v4(_e: &err::ip_auth::HeaderError) -> String {
+    crate::util::touch(_e);
     "Ipv4Exts(ZeroPayloadLen)".to_string()
 }
 
 fn ipv6_exts_err(e: &err::ipv6_exts::HeaderError) -> String {
+    crate::util::touch(e);
     use err::ipv6_exts::HeaderError::*;
     match e {
         HopByHopNotAtStart => "Ipv6Exts(HopByHopNotAtStart)".to_string(),
@@ -95,6 +103,7 @@ fn ipv6_exts_err(e: &err::ipv6_exts::HeaderError) -> String {
 }
 
 fn tcp_err(e: &err::tcp::HeaderError) -> String {
+    crate::util::touch(e);
     use err::tcp::HeaderError::*;
     match e {
         DataOffsetTooSmall { data_offset } => format!("Tcp(DataOffset({}))", data_offset),
@@ -102,6 +111,7 @@ fn tcp_err(e: &err::tcp::HeaderError) -> String {
 }
 
 pub fn perr(e: &SliceError) -> String {
+    crate::util::touch(e);
     match e {
         SliceError::Len(l) => len_err(l),
         SliceError::LinuxSll(e) => sll_err(e),
@@ -603,7 +613,15 @@ fn lax_net_slice(base: &[u8], n: &Option<LaxNetSlice>) -> String {
 
 fn udp_slice_str(base: &[u8], u: &UdpSlice) -> String {
     let h = u.to_header();
-    let mism = h.source_port != u.source_port() || h.length != u.length() || win(base, u.header_slice()) != format!("({},8)", off(base, u.slice()));
+    let mism = h.source_port != u.source_port()
+        || h.length != u.length()
+        || win(base, u.header_slice()) != format!("({},8)", off(base, u.slice()))
+        || u.header_len() != 8
+        || u.header_len_u16() != 8
+        || h.header_len() != 8
+        || h.header_len_u16() != 8
+        || u.payload_len_source() != (if usize::from(u.length()) == u.slice().len() { LenSource::UdpHeaderLen } else { LenSource::Slice })
+        || UdpHeaderSlice::from_slice(u.slice()).map(|x| x.slice().len() != 8 || x.to_header() != h || x.slice().as_ptr() != u.slice().as_ptr()).unwrap_or(true);
     format!(
         "udp(s={},{},pl={}){}",
         win(base, u.slice()),
@@ -678,7 +696,216 @@ fn tp_slice(base: &[u8], t: &Option<TransportSlice>) -> String {
 }
 
 /// the convenience accessors of the packet types, against the layers they summarise
-fn helper_mismatch_sliced(p: &SlicedPacket) -> bool {
+// ---------------------------------------------------------------------------------------------
+// the enum wrappers around the layer slices: every helper has to say what the wrapped variant says
+
+fn eth_pl_eq(a: &EtherPayloadSlice, b: &EtherPayloadSlice) -> bool {
+    a.ether_type == b.ether_type && a.len_source == b.len_source && a.payload.as_ptr() == b.payload.as_ptr() && a.payload.len() == b.payload.len()
+}
+
+fn net_slice_helpers_bad(n: &NetSlice) -> bool {
+    let (v4, v6, arp) = match n {
+        NetSlice::Ipv4(_) => (true, false, false),
+        NetSlice::Ipv6(_) => (false, true, false),
+        NetSlice::Arp(_) => (false, false, true),
+    };
+    let pl = match n {
+        NetSlice::Ipv4(s) => Some(s.payload().clone()),
+        NetSlice::Ipv6(s) => Some(s.payload().clone()),
+        NetSlice::Arp(_) => None,
+    };
+    let via_from = match n {
+        NetSlice::Ipv4(s) => NetSlice::from(s.clone()) != *n || NetSlice::from(IpSlice::Ipv4(s.clone())) != *n || NetSlice::from(IpSlice::from(s.clone())) != *n,
+        NetSlice::Ipv6(s) => NetSlice::from(s.clone()) != *n || NetSlice::from(IpSlice::Ipv6(s.clone())) != *n || NetSlice::from(IpSlice::from(s.clone())) != *n,
+        NetSlice::Arp(_) => false,
+    };
+    n.is_ip() != (v4 || v6)
+        || n.is_ipv4() != v4
+        || n.is_ipv6() != v6
+        || n.is_arp() != arp
+        || n.ipv4_ref().is_some() != v4
+        || n.ipv6_ref().is_some() != v6
+        || n.arp_ref().is_some() != arp
+        || n.ipv4_ref().map(|s| NetSlice::Ipv4(s.clone()) != *n).unwrap_or(false)
+        || n.ipv6_ref().map(|s| NetSlice::Ipv6(s.clone()) != *n).unwrap_or(false)
+        || n.arp_ref().map(|s| NetSlice::Arp(s.clone()) != *n).unwrap_or(false)
+        || n.ip_payload_ref().cloned() != pl
+        || via_from
+}
+
+fn ip_slice_helpers_bad(s: &IpSlice) -> bool {
+    let (v4, frag, pl) = match s {
+        IpSlice::Ipv4(x) => (true, x.payload().fragmented, x.payload().clone()),
+        IpSlice::Ipv6(x) => (false, x.payload().fragmented, x.payload().clone()),
+    };
+    s.ipv4().is_some() != v4
+        || s.ipv6().is_some() == v4
+        || s.ipv4().map(|x| IpSlice::Ipv4(x.clone()) != *s).unwrap_or(false)
+        || s.ipv6().map(|x| IpSlice::Ipv6(x.clone()) != *s).unwrap_or(false)
+        || s.is_fragmenting_payload() != frag
+        || *s.payload() != pl
+        || s.payload_ip_number() != pl.ip_number
+}
+
+fn lax_net_slice_helpers_bad(n: &LaxNetSlice) -> bool {
+    let pl = match n {
+        LaxNetSlice::Ipv4(s) => Some(s.payload().clone()),
+        LaxNetSlice::Ipv6(s) => Some(s.payload().clone()),
+        LaxNetSlice::Arp(_) => None,
+    };
+    let sub = match n {
+        LaxNetSlice::Ipv4(s) => {
+            LaxNetSlice::from(s.clone()) != *n
+                || LaxNetSlice::from(LaxIpSlice::Ipv4(s.clone())) != *n
+                || s.payload_ip_number() != s.payload().ip_number
+                || s.is_payload_fragmented() != s.payload().fragmented
+                || lax_ip_slice_helpers_bad(&LaxIpSlice::from(s.clone()))
+        }
+        LaxNetSlice::Ipv6(s) => {
+            LaxNetSlice::from(s.clone()) != *n
+                || LaxNetSlice::from(LaxIpSlice::Ipv6(s.clone())) != *n
+                || s.is_payload_fragmented() != s.payload().fragmented
+                || lax_ip_slice_helpers_bad(&LaxIpSlice::from(s.clone()))
+        }
+        LaxNetSlice::Arp(_) => false,
+    };
+    n.ip_payload_ref().cloned() != pl || sub
+}
+
+fn lax_ip_slice_helpers_bad(s: &LaxIpSlice) -> bool {
+    use core::net::IpAddr;
+    let (v4, frag, pl, sa, da) = match s {
+        LaxIpSlice::Ipv4(x) => (true, x.payload().fragmented, x.payload().clone(), IpAddr::from(x.header().source()), IpAddr::from(x.header().destination())),
+        LaxIpSlice::Ipv6(x) => (false, x.payload().fragmented, x.payload().clone(), IpAddr::from(x.header().source()), IpAddr::from(x.header().destination())),
+    };
+    s.ipv4().is_some() != v4
+        || s.ipv6().is_some() == v4
+        || s.ipv4().map(|x| LaxIpSlice::Ipv4(x.clone()) != *s).unwrap_or(false)
+        || s.ipv6().map(|x| LaxIpSlice::Ipv6(x.clone()) != *s).unwrap_or(false)
+        || s.is_fragmenting_payload() != frag
+        || *s.payload() != pl
+        || s.payload_ip_number() != pl.ip_number
+        || s.source_addr() != sa
+        || s.destination_addr() != da
+}
+
+fn link_slice_helpers_bad(l: &LinkSlice) -> bool {
+    // the payload of the link layer as an ether payload (None when the SLL protocol field is no ether type)
+    // and as an SLL payload
+    let (ep, sp): (Option<EtherPayloadSlice>, LinuxSllPayloadSlice) = match l {
+        LinkSlice::Ethernet2(e) => {
+            let p = e.payload();
+            (Some(p.clone()), LinuxSllPayloadSlice { protocol_type: LinuxSllProtocolType::EtherType(p.ether_type), payload: p.payload })
+        }
+        LinkSlice::LinuxSll(s) => {
+            let p = s.payload();
+            (
+                match p.protocol_type {
+                    LinuxSllProtocolType::EtherType(et) => Some(EtherPayloadSlice { ether_type: et, len_source: LenSource::Slice, payload: p.payload }),
+                    // the crate hands the Linux non-standard protocol numbers on as ether type numbers
+                    LinuxSllProtocolType::LinuxNonstandardEtherType(n) => Some(EtherPayloadSlice { ether_type: EtherType(u16::from(n)), len_source: LenSource::Slice, payload: p.payload }),
+                    _ => None,
+                },
+                p.clone(),
+            )
+        }
+        LinkSlice::EtherPayload(p) => (Some(p.clone()), LinuxSllPayloadSlice { protocol_type: LinuxSllProtocolType::EtherType(p.ether_type), payload: p.payload }),
+        LinkSlice::LinuxSllPayload(p) => (
+            match p.protocol_type {
+                LinuxSllProtocolType::EtherType(et) => Some(EtherPayloadSlice { ether_type: et, len_source: LenSource::Slice, payload: p.payload }),
+                LinuxSllProtocolType::LinuxNonstandardEtherType(n) => Some(EtherPayloadSlice { ether_type: EtherType(u16::from(n)), len_source: LenSource::Slice, payload: p.payload }),
+                _ => None,
+            },
+            p.clone(),
+        ),
+    };
+    let got_e = l.ether_payload();
+    let got_s = l.sll_payload();
+    let e_bad = match (&got_e, &ep) {
+        (None, None) => false,
+        (Some(a), Some(b)) => !eth_pl_eq(a, b),
+        _ => true,
+    };
+    e_bad || got_s.protocol_type != sp.protocol_type || got_s.payload.as_ptr() != sp.payload.as_ptr() || got_s.payload.len() != sp.payload.len()
+}
+
+fn link_ext_helpers_bad(e: &LinkExtSlice) -> bool {
+    match e {
+        LinkExtSlice::Vlan(v) => {
+            e.header_len() != 4
+                || !e.ether_payload().map(|p| eth_pl_eq(&p, &v.payload())).unwrap_or(false)
+                || VlanSlice::SingleVlan(v.clone()).to_header() != VlanHeader::Single(v.to_header())
+                || !eth_pl_eq(&VlanSlice::SingleVlan(v.clone()).payload(), &v.payload())
+                || v.header_len() != 4
+        }
+        LinkExtSlice::Macsec(m) => {
+            let want = match &m.payload {
+                MacsecPayloadSlice::Unmodified(p) => Some(p.clone()),
+                MacsecPayloadSlice::Modified(_) => None,
+            };
+            e.header_len() != m.header.slice().len()
+                || match (e.ether_payload(), want) {
+                    (None, None) => false,
+                    (Some(a), Some(b)) => !eth_pl_eq(&a, &b),
+                    _ => true,
+                }
+                || m.next_ether_type() != m.header.next_ether_type()
+        }
+    }
+}
+
+fn lax_link_ext_helpers_bad(e: &LaxLinkExtSlice) -> bool {
+    match e {
+        LaxLinkExtSlice::Vlan(v) => {
+            let p = v.payload();
+            e.header_len() != 4
+                || e.payload().map(|g| g.incomplete || g.ether_type != p.ether_type || g.len_source != p.len_source || g.payload.as_ptr() != p.payload.as_ptr() || g.payload.len() != p.payload.len()).unwrap_or(true)
+        }
+        LaxLinkExtSlice::Macsec(m) => {
+            let want = match &m.payload {
+                LaxMacsecPayloadSlice::Unmodified(p) => Some(p.clone()),
+                LaxMacsecPayloadSlice::Modified { .. } => None,
+            };
+            e.header_len() != m.header.slice().len() || e.payload() != want || m.ether_payload() != want || m.next_ether_type() != m.header.next_ether_type()
+        }
+    }
+}
+
+fn mark(bad: bool) -> &'static str {
+    if bad {
+        "!accessor-mismatch"
+    } else {
+        ""
+    }
+}
+
+/// `vlan()` of the packet types against the VLAN link extensions it summarises (the first one, or the
+/// first two as a double tag), and the conversions of the value it returns
+fn vlan_helper_bad(vl: &Option<VlanSlice>, vlans: &[&SingleVlanSlice]) -> bool {
+    match vl {
+        None => !vlans.is_empty(),
+        Some(VlanSlice::SingleVlan(s)) => {
+            vlans.len() != 1
+                || s != vlans[0]
+                || vl.as_ref().unwrap().to_header() != VlanHeader::Single(vlans[0].to_header())
+                || !eth_pl_eq(&vl.as_ref().unwrap().payload(), &vlans[0].payload())
+        }
+        Some(VlanSlice::DoubleVlan(d)) => {
+            vlans.len() < 2
+                || &d.outer != vlans[0]
+                || &d.inner != vlans[1]
+                || d.to_header() != (DoubleVlanHeader { outer: vlans[0].to_header(), inner: vlans[1].to_header() })
+                || vl.as_ref().unwrap().to_header() != VlanHeader::Double(DoubleVlanHeader { outer: vlans[0].to_header(), inner: vlans[1].to_header() })
+                || !eth_pl_eq(&d.payload(), &vlans[1].payload())
+                || !eth_pl_eq(&vl.as_ref().unwrap().payload(), &vlans[1].payload())
+                || d.payload_slice().as_ptr() != vlans[1].payload_slice().as_ptr()
+                || d.payload_slice().len() != vlans[1].payload_slice().len()
+                || format!("{:?}", d).is_empty()
+        }
+    }
+}
+
+fn helper_mismatch_sliced_inner(p: &SlicedPacket) -> bool {
     let ids: Vec<u16> = p
         .link_exts
         .iter()
@@ -705,6 +932,15 @@ fn helper_mismatch_sliced(p: &SlicedPacket) -> bool {
         pet == p.ether_payload().map(|e| e.ether_type) || p.ether_payload().is_none()
     };
     ids != got || vl != ids.len().min(2) || frag != p.is_ip_payload_fragmented() || !pet_ok
+}
+
+fn helper_mismatch_sliced(p: &SlicedPacket) -> bool {
+    let vlans: Vec<&SingleVlanSlice> = p.link_exts.iter().filter_map(|e| if let LinkExtSlice::Vlan(v) = e { Some(v) } else { None }).collect();
+    helper_mismatch_sliced_inner(p)
+        || vlan_helper_bad(&p.vlan(), &vlans)
+        || p.link.as_ref().map(link_slice_helpers_bad).unwrap_or(false)
+        || p.link_exts.iter().any(link_ext_helpers_bad)
+        || p.net.as_ref().map(net_slice_helpers_bad).unwrap_or(false)
 }
 
 fn sliced(base: &[u8], p: &SlicedPacket) -> String {
@@ -736,7 +972,13 @@ fn lax_sliced(base: &[u8], p: &LaxSlicedPacket) -> String {
         Some(VlanSlice::SingleVlan(_)) => 1,
         Some(VlanSlice::DoubleVlan(_)) => 2,
     };
-    let mism = ids != got || vl != ids.len().min(2);
+    let vlans: Vec<&SingleVlanSlice> = p.link_exts.iter().filter_map(|e| if let LaxLinkExtSlice::Vlan(v) = e { Some(v) } else { None }).collect();
+    let mism = ids != got
+        || vl != ids.len().min(2)
+        || vlan_helper_bad(&p.vlan(), &vlans)
+        || p.link.as_ref().map(link_slice_helpers_bad).unwrap_or(false)
+        || p.link_exts.iter().any(lax_link_ext_helpers_bad)
+        || p.net.as_ref().map(lax_net_slice_helpers_bad).unwrap_or(false);
     format!(
         "ok(link={};exts=[{}];net={};tp={};stop={}){}",
         link_slice(base, &p.link),
@@ -751,18 +993,169 @@ fn lax_sliced(base: &[u8], p: &LaxSlicedPacket) -> String {
 // ---------------------------------------------------------------------------------------------
 // struct family
 
+// ---------------------------------------------------------------------------------------------
+// the enum wrappers around the header structs
+
+fn wlen<F: FnOnce(&mut Vec<u8>) -> bool>(f: F) -> Option<usize> {
+    let mut v = Vec::new();
+    if f(&mut v) {
+        Some(v.len())
+    } else {
+        None
+    }
+}
+
+fn link_header_helpers_bad(l: &LinkHeader) -> bool {
+    let mut m = l.clone();
+    let mut m2 = l.clone();
+    let (is_eth, len) = match l {
+        LinkHeader::Ethernet2(_) => (true, 14),
+        LinkHeader::LinuxSll(_) => (false, 16),
+    };
+    l.clone().ethernet2().is_some() != is_eth
+        || l.clone().linux_sll().is_some() == is_eth
+        || l.clone().ethernet2().map(|h| LinkHeader::Ethernet2(h) != *l).unwrap_or(false)
+        || l.clone().linux_sll().map(|h| LinkHeader::LinuxSll(h) != *l).unwrap_or(false)
+        || m.mut_ethernet2().map(|h| LinkHeader::Ethernet2(h.clone()) != *l).unwrap_or(is_eth)
+        || m2.mut_linux_sll().map(|h| LinkHeader::LinuxSll(h.clone()) != *l).unwrap_or(!is_eth)
+        || l.header_len() != len
+        || wlen(|v| l.write(v).is_ok()) != Some(len)
+}
+
+fn link_ext_header_helpers_bad(e: &LinkExtHeader) -> bool {
+    match e {
+        LinkExtHeader::Vlan(v) => e.header_len() != 4 || v.header_len() != 4 || VlanHeader::Single(v.clone()).next_header() != v.ether_type,
+        LinkExtHeader::Macsec(m) => {
+            e.header_len() != m.header_len()
+                || m.header_len() != m.to_bytes().len()
+                || m.next_ether_type() != (if let MacsecPType::Unmodified(et) = m.ptype { Some(et) } else { None })
+                || m.encrypted() != matches!(m.ptype, MacsecPType::Encrypted | MacsecPType::EncryptedUnmodified)
+                || m.userdata_changed() != matches!(m.ptype, MacsecPType::Encrypted | MacsecPType::Modified)
+        }
+    }
+}
+
+fn ip_headers_helpers_bad(h: &IpHeaders) -> bool {
+    let (v4, len, frag) = match h {
+        IpHeaders::Ipv4(i, e) => (true, i.header_len() + e.auth.as_ref().map(|a| a.header_len()).unwrap_or(0), i.more_fragments || i.fragment_offset.value() != 0),
+        IpHeaders::Ipv6(_, e) => (
+            false,
+            40 + e.hop_by_hop_options.as_ref().map(|x| x.header_len()).unwrap_or(0)
+                + e.destination_options.as_ref().map(|x| x.header_len()).unwrap_or(0)
+                + e.routing.as_ref().map(|r| r.routing.header_len() + r.final_destination_options.as_ref().map(|x| x.header_len()).unwrap_or(0)).unwrap_or(0)
+                + e.fragment.as_ref().map(|_| 8).unwrap_or(0)
+                + e.auth.as_ref().map(|a| a.header_len()).unwrap_or(0),
+            e.fragment.as_ref().map(|f| f.more_fragments || f.fragment_offset.value() != 0).unwrap_or(false),
+        ),
+    };
+    let exts_bad = match h {
+        IpHeaders::Ipv4(i, e) => {
+            e.is_empty() != e.auth.is_none()
+                || e.header_len() != e.auth.as_ref().map(|a| a.header_len()).unwrap_or(0)
+                || i.options() != &i.options[..]
+                || i.header_len() != 20 + i.options.len()
+                || usize::from(i.ihl()) * 4 != i.header_len()
+                || i.payload_len().ok() != i.total_len.checked_sub(i.header_len() as u16)
+                || i.is_fragmenting_payload() != frag
+        }
+        IpHeaders::Ipv6(i, e) => {
+            e.is_empty() != (e.hop_by_hop_options.is_none() && e.destination_options.is_none() && e.routing.is_none() && e.fragment.is_none() && e.auth.is_none())
+                || e.header_len() != len - 40
+                || e.is_fragmenting_payload() != frag
+                || i.header_len() != 40
+                || i.source_addr().octets() != i.source
+                || i.destination_addr().octets() != i.destination
+        }
+    };
+    // a decoded chain is written back in the order it was read only when it is in the canonical order;
+    // where the write succeeds its length is the announced one
+    let w = wlen(|v| h.write(v).is_ok());
+    h.ipv4().is_some() != v4
+        || h.ipv6().is_some() == v4
+        || h.ipv4().map(|(a, b)| IpHeaders::Ipv4(a.clone(), b.clone()) != *h).unwrap_or(false)
+        || h.ipv6().map(|(a, b)| IpHeaders::Ipv6(a.clone(), b.clone()) != *h).unwrap_or(false)
+        || h.header_len() != len
+        || w.map(|n| n != len).unwrap_or(false)
+        || h.is_fragmenting_payload() != frag
+        || exts_bad
+}
+
+fn net_headers_helpers_bad(n: &NetHeaders) -> bool {
+    let (v4, v6, arp) = match n {
+        NetHeaders::Ipv4(_, _) => (true, false, false),
+        NetHeaders::Ipv6(_, _) => (false, true, false),
+        NetHeaders::Arp(_) => (false, false, true),
+    };
+    let sub = match n {
+        NetHeaders::Ipv4(h, e) => {
+            let ip = IpHeaders::Ipv4(h.clone(), e.clone());
+            ip_headers_helpers_bad(&ip) || n.header_len() != ip.header_len() || NetHeaders::from(ip) != *n
+        }
+        NetHeaders::Ipv6(h, e) => {
+            let ip = IpHeaders::Ipv6(h.clone(), e.clone());
+            ip_headers_helpers_bad(&ip) || n.header_len() != ip.header_len() || NetHeaders::from(ip) != *n
+        }
+        NetHeaders::Arp(a) => n.header_len() != a.packet_len() || a.packet_len() != a.to_bytes().len() || NetHeaders::from(a.clone()) != *n,
+    };
+    n.is_ip() != (v4 || v6)
+        || n.is_ipv4() != v4
+        || n.is_ipv6() != v6
+        || n.is_arp() != arp
+        || n.ipv4_ref().is_some() != v4
+        || n.ipv6_ref().is_some() != v6
+        || n.arp_ref().is_some() != arp
+        || n.ipv4_ref().map(|(a, b)| NetHeaders::Ipv4(a.clone(), b.clone()) != *n).unwrap_or(false)
+        || n.ipv6_ref().map(|(a, b)| NetHeaders::Ipv6(a.clone(), b.clone()) != *n).unwrap_or(false)
+        || n.arp_ref().map(|a| NetHeaders::Arp(a.clone()) != *n).unwrap_or(false)
+        || sub
+}
+
+fn tp_header_helpers_bad(t: &TransportHeader) -> bool {
+    let k = match t {
+        TransportHeader::Udp(_) => 0,
+        TransportHeader::Tcp(_) => 1,
+        TransportHeader::Icmpv4(_) => 2,
+        TransportHeader::Icmpv6(_) => 3,
+    };
+    let (mut a, mut b, mut c, mut d) = (t.clone(), t.clone(), t.clone(), t.clone());
+    let len = match t {
+        TransportHeader::Udp(u) => u.to_bytes().len(),
+        TransportHeader::Tcp(x) => x.to_bytes().len(),
+        TransportHeader::Icmpv4(i) => i.to_bytes().len(),
+        TransportHeader::Icmpv6(i) => i.to_bytes().len(),
+    };
+    t.clone().udp().is_some() != (k == 0)
+        || t.clone().tcp().is_some() != (k == 1)
+        || t.clone().icmpv4().is_some() != (k == 2)
+        || t.clone().icmpv6().is_some() != (k == 3)
+        || t.clone().udp().map(|h| TransportHeader::Udp(h) != *t).unwrap_or(false)
+        || t.clone().tcp().map(|h| TransportHeader::Tcp(h) != *t).unwrap_or(false)
+        || t.clone().icmpv4().map(|h| TransportHeader::Icmpv4(h) != *t).unwrap_or(false)
+        || t.clone().icmpv6().map(|h| TransportHeader::Icmpv6(h) != *t).unwrap_or(false)
+        || a.mut_udp().map(|h| TransportHeader::Udp(h.clone()) != *t).unwrap_or(k == 0)
+        || b.mut_tcp().map(|h| TransportHeader::Tcp(h.clone()) != *t).unwrap_or(k == 1)
+        || c.mut_icmpv4().map(|h| TransportHeader::Icmpv4(h.clone()) != *t).unwrap_or(k == 2)
+        || d.mut_icmpv6().map(|h| TransportHeader::Icmpv6(h.clone()) != *t).unwrap_or(k == 3)
+        || t.header_len() != len
+        || wlen(|v| t.write(v).is_ok()) != Some(len)
+        || match t {
+            TransportHeader::Icmpv6(i) => i.header_len() != i.icmp_type.header_len() || i.icmp_type.to_header(core::net::Ipv6Addr::UNSPECIFIED.octets(), core::net::Ipv6Addr::UNSPECIFIED.octets(), &[]).map(|h| h.icmp_type != i.icmp_type).unwrap_or(false),
+            _ => false,
+        }
+}
+
 fn h_link(l: &Option<LinkHeader>) -> String {
     match l {
         None => "none".to_string(),
-        Some(LinkHeader::Ethernet2(h)) => format!("eth2({})", eth2_fields(h.destination, h.source, h.ether_type)),
-        Some(LinkHeader::LinuxSll(h)) => format!("sll({})", sll_fields(h)),
+        Some(LinkHeader::Ethernet2(h)) => format!("eth2({}){}", eth2_fields(h.destination, h.source, h.ether_type), mark(link_header_helpers_bad(l.as_ref().unwrap()))),
+        Some(LinkHeader::LinuxSll(h)) => format!("sll({}){}", sll_fields(h), mark(link_header_helpers_bad(l.as_ref().unwrap()))),
     }
 }
 
 fn h_ext(e: &LinkExtHeader) -> String {
     match e {
-        LinkExtHeader::Vlan(v) => format!("vlan({})", vlan_fields(v)),
-        LinkExtHeader::Macsec(m) => format!("macsec({})", macsec_fields(m)),
+        LinkExtHeader::Vlan(v) => format!("vlan({}){}", vlan_fields(v), mark(link_ext_header_helpers_bad(e))),
+        LinkExtHeader::Macsec(m) => format!("macsec({}){}", macsec_fields(m), mark(link_ext_header_helpers_bad(e))),
     }
 }
 
@@ -800,9 +1193,10 @@ fn h_ipv6_exts(e: &Ipv6Extensions) -> String {
 }
 
 fn h_ip(h: &IpHeaders) -> String {
+    let m = mark(ip_headers_helpers_bad(h));
     match h {
-        IpHeaders::Ipv4(h, e) => format!("ipv4({},opts={},auth={})", ipv4_fields(h), to_hex(&h.options[..]), h_auth(&e.auth)),
-        IpHeaders::Ipv6(h, e) => format!("ipv6({},{})", ipv6_fields(h), h_ipv6_exts(e)),
+        IpHeaders::Ipv4(h, e) => format!("ipv4({},opts={},auth={}){}", ipv4_fields(h), to_hex(&h.options[..]), h_auth(&e.auth), m),
+        IpHeaders::Ipv6(h, e) => format!("ipv6({},{}){}", ipv6_fields(h), h_ipv6_exts(e), m),
     }
 }
 
@@ -818,6 +1212,9 @@ fn h_arp(a: &ArpPacket) -> String {
 }
 
 fn h_net(n: &Option<NetHeaders>) -> String {
+    if n.as_ref().map(net_headers_helpers_bad).unwrap_or(false) {
+        return "!accessor-mismatch(net_headers)".to_string();
+    }
     match n {
         None => "none".to_string(),
         Some(NetHeaders::Ipv4(h, e)) => h_ip(&IpHeaders::Ipv4(h.clone(), e.clone())),
@@ -827,6 +1224,9 @@ fn h_net(n: &Option<NetHeaders>) -> String {
 }
 
 fn h_tp(t: &Option<TransportHeader>) -> String {
+    if t.as_ref().map(tp_header_helpers_bad).unwrap_or(false) {
+        return "!accessor-mismatch(transport_header)".to_string();
+    }
     match t {
         None => "none".to_string(),
         Some(TransportHeader::Udp(u)) => format!("udp({})", udp_fields(u.source_port, u.destination_port, u.length, u.checksum)),
@@ -1070,6 +1470,19 @@ fn ip_slice_str(base: &[u8], s: &IpSlice) -> String {
     if hs.header_len() != (s.payload().payload.as_ptr() as usize) - (hs.slice().as_ptr() as usize) {
         which.push("header_len");
     }
+    if ip_slice_helpers_bad(s) {
+        which.push("ip_slice_helpers");
+    }
+    if hs.next_header() != (match s { IpSlice::Ipv4(x) => x.header().protocol(), IpSlice::Ipv6(x) => x.header().next_header() }) {
+        which.push("next_header");
+    }
+    let from_bad = match s {
+        IpSlice::Ipv4(x) => IpHeadersSlice::from((x.header(), x.extensions())) != hs || IpHeadersSlice::from(x.header()) != IpHeadersSlice::Ipv4(x.header(), Default::default()) || IpSlice::from(x.clone()) != *s,
+        IpSlice::Ipv6(x) => IpHeadersSlice::from((x.header(), x.extensions().clone())) != hs || IpHeadersSlice::from(x.header()) != IpHeadersSlice::Ipv6(x.header(), Default::default()) || IpSlice::from(x.clone()) != *s,
+    };
+    if from_bad {
+        which.push("from");
+    }
     let mism = !which.is_empty();
     let main = match s {
         IpSlice::Ipv4(s) => net_slice(base, &Some(NetSlice::Ipv4(s.clone()))),
@@ -1083,6 +1496,7 @@ fn ip_slice_str(base: &[u8], s: &IpSlice) -> String {
 }
 
 fn ip_slice_err(e: &err::ip::SliceError) -> String {
+    crate::util::touch(e);
     use err::ip::{HeadersError as H, SliceError as S};
     match e {
         S::Len(l) => len_err(l),
@@ -1093,6 +1507,7 @@ fn ip_slice_err(e: &err::ip::SliceError) -> String {
 }
 
 fn ipv4_slice_err(e: &err::ipv4::SliceError) -> String {
+    crate::util::touch(e);
     use err::ipv4::SliceError as S;
     match e {
         S::Len(l) => len_err(l),
@@ -1102,6 +1517,7 @@ fn ipv4_slice_err(e: &err::ipv4::SliceError) -> String {
 }
 
 fn ipv6_slice_err(e: &err::ipv6::SliceError) -> String {
+    crate::util::touch(e);
     use err::ipv6::SliceError as S;
     match e {
         S::Len(l) => len_err(l),
@@ -1111,6 +1527,7 @@ fn ipv6_slice_err(e: &err::ipv6::SliceError) -> String {
 }
 
 fn lax_hdr_err(e: &err::ip::LaxHeaderSliceError) -> String {
+    crate::util::touch(e);
     use err::ip::LaxHeaderSliceError as S;
     match e {
         S::Len(l) => len_err(l),
@@ -1303,11 +1720,13 @@ fn run_on(op: &str, et: Option<u16>, b: &[u8]) -> Option<String> {
         ("dec.lax_ip_slice", None) => match LaxIpSlice::from_slice(b) {
             Ok((s, st)) => {
                 let _ = format!("{:?}", s);
+                let bad = lax_ip_slice_helpers_bad(&s);
                 let (n, v4) = match s {
                     LaxIpSlice::Ipv4(s) => (LaxNetSlice::Ipv4(s), true),
                     LaxIpSlice::Ipv6(s) => (LaxNetSlice::Ipv6(s), false),
                 };
-                format!("ok(ip={};stop={})", lax_net_slice(b, &Some(n)), ipv6_exts_stop(&st, v4))
+                let bad = bad || lax_net_slice_helpers_bad(&n);
+                format!("ok(ip={};stop={}){}", lax_net_slice(b, &Some(n)), ipv6_exts_stop(&st, v4), mark(bad))
             }
             Err(e) => format!("err({})", lax_hdr_err(&e)),
         },
